@@ -23,7 +23,7 @@ CLAIMS = {
         text="Decides the table half: which dtype names each of the 34 categories contains (against the documented hierarchy) and how a name is compared; dtype-name extraction per backend depends on run-time names and is not decided.",
         ref="DESIGN.md §4 C03"),
     "C04": dict(
-        tech="static analysis: rollback typestate on a statement CFG with Exception/BaseException edge classes, snapshot provenance and dominance, 4-slot order agreement (ast + CFG product exploration)",
+        tech="static analysis: rollback typestate on a statement CFG with Exception/BaseException edge classes (restore followed into helpers and context managers by summaries; callee parameter-write summaries), snapshot provenance and dominance, 4-slot order agreement, unconditional in-place restore (ast + CFG product exploration)",
         text="Decides rollback on every failing exit (False, Exception, BaseException) of both check sites, that snapshots are real copies taken before the mutating call, and that the four memo slots keep one order across get/push/set/restore sites.",
         ref="DESIGN.md §4 C04"),
     "C05": dict(
@@ -35,8 +35,8 @@ CLAIMS = {
         text="Confinement argument valid for all schedules: every module-level object written by check-time code is a threading.local, and no reachable store is rooted in a module-level name, class object or global.",
         ref="DESIGN.md §4 C06"),
     "C07": dict(
-        tech="static analysis: path counting of the single call of fn, dominance of the parameter check, handler-exit analysis, generated-code hole provenance, descriptor sibling agreement (ast + CFG)",
-        text="Decides exactly-once call and identity of the returned object on every normal path, body-not-run on violation, bind errors outside converting handlers, functools.wraps/descriptor rebuilding, hygiene of every hole of the exec'd template, coroutine-kind coverage.",
+        tech="static analysis: path counting of the single call of fn, dominance of the parameter check, handler-exit analysis (exception transparency of every handler around the call of fn), generated-code hole provenance, descriptor sibling agreement (ast + CFG, after inlining of helpers new w.r.t. the pinned tree)",
+        text="Decides exactly-once call and identity of the returned object on every normal path, body-not-run on violation, bind errors outside converting handlers, that a handler around the call of fn re-raises and cannot replace the body's exception, functools.wraps/descriptor rebuilding, hygiene of every hole of the exec'd template, coroutine-kind coverage.",
         ref="DESIGN.md §4 C07"),
     "C08": dict(
         tech="static analysis: must-pass-through and dominance on the CFG of the PyTree check (every leaf checked, reject on first failure, accept only after the loop), predicate identity flatten/check, rollback and flag typestates (ast + CFG)",
@@ -79,8 +79,8 @@ CLAIMS = {
         text="Non-interference: the checked value is observed only through its type, .shape and .dtype, so no element value can influence a verdict and a tracer is never concretised by jaxtyping; behaviour of jax transformations is trusted.",
         ref="DESIGN.md §4 C17"),
     "C18": dict(
-        tech="static analysis: cache-tag composition, hash determinism (hashlib only), extent of the cache_from_source patch against a table of loader methods that execute module code (ast)",
-        text="Decides that the cache tag carries a version literal and the per-loader typechecker hash, the hash is a deterministic digest, the patched region executes no module code, and source validation is not bypassed.",
+        tech="static analysis: cache-tag composition, hash determinism (hashlib only), extent of the cache_from_source patch against a table of loader methods that execute module code, must-pass-through-the-transformer for every return of source_to_code (ast + CFG dominance)",
+        text="Decides that the cache tag carries a version literal and the per-loader typechecker hash, the hash is a deterministic digest, the patched region executes no module code, source validation is not bypassed, and every code object source_to_code returns was compiled from the transformed tree.",
         ref="DESIGN.md §4 C18"),
     "C19": dict(
         tech="static analysis: dominance of the disable guard over bind/push/checks, truth table of the guard over its three atoms, branch table of _maybestr2bool vs the statement, env->update->attribute wiring (ast + CFG)",
